@@ -254,7 +254,7 @@ func finish(cfg *Config, rep *Report) int {
 		vs := bySig[sig]
 		var hit *finding
 		for i := range findings {
-			if findings[i].Property == cfg.Property && findings[i].Re.MatchString(sig) {
+			if propListed(findings[i].Property, cfg.Property) && findings[i].Re.MatchString(sig) {
 				hit = &findings[i]
 				break
 			}
@@ -335,6 +335,16 @@ func finish(cfg *Config, rep *Report) int {
 	fmt.Printf("%s tier=%s evaluations=%d states=%d transitions=%d distinct_outcomes=%d exhaustive=%v violations=%d known=%d wall=%.1fs\n",
 		cfg.Property, cfg.Tier, rep.Evaluations, rep.States, rep.Transitions, len(rep.outcomes), rep.Exhaustive, len(order)-known, known, time.Since(cfg.Start).Seconds())
 	return exit
+}
+
+// propListed reports whether id is in the comma-separated list.
+func propListed(list, id string) bool {
+	for _, p := range strings.Split(list, ",") {
+		if p == id {
+			return true
+		}
+	}
+	return false
 }
 
 func oneLine(s string, n int) string {
